@@ -74,7 +74,7 @@ def opaque_ix(rng, i):
 def string_history(rng):
     """a string VARIABLE assigned constants of different lengths, indexed (opaque and literal indices, negative ones too) while it holds
     each of them; optionally ends in an out-of-bounds index for the value it holds at that moment.  -> (text, expected lines, panics)"""
-    pool = ["hi", "hello, world", "a", "xyzzy", "0123456789abcdef", "ok!"]
+    pool = ["hi", "hello, world", "a", "xyzzy", "0123456789abcdef", "ok!", "h\u00e9llo w\u00f6rld", "na\u00efve caf\u00e9", "\u65e5\u672c", "\u00e9"]      # lengths and indices are in BYTES
     lines = ['import "std/io";', "fn ix(k: i32) -> i32 { return k; }", "fn pick(k: i32) -> str {", '    if k == 0 { return "zero"; }', '    return "seventeen chars!!";', "}", "fn main() {"]
     cur = rng.choice(pool)
     lines.append('    let s: str = "%s";' % cur)
@@ -102,7 +102,8 @@ def string_history(rng):
     return "\n".join(lines) + "\n", exp, panics
 
 
-STRING_CASES = [("hello", [0, 4, -1, -5], None), ("hello", [1], 5), ("hello", [2], -6), ("a", [0, -1], 1), ("xyz", [0], 3), ("héllo", [0], 6)]
+STRING_CASES = [("hello", [0, 4, -1, -5], None), ("hello", [1], 5), ("hello", [2], -6), ("a", [0, -1], 1), ("xyz", [0], 3), ("héllo", [0], 6),
+                ("h\u00e9llo w\u00f6rld", [0, 12, -1, -13, 11, -12], 13), ("h\u00e9llo w\u00f6rld", [12], -14), ("\u65e5\u672c", [0, 5, -1, -6], 6), ("na\u00efve caf\u00e9", [11, -12, 10], 12)]
 
 
 def string_program(s, ok_idx, bad):
